@@ -18,6 +18,7 @@ import shutil
 import sys
 import tempfile
 import types
+import warnings
 
 from sim import canon, isolate, ops, seam, simio
 from sim import universe as U
@@ -196,8 +197,11 @@ def process_globals():
     import locale
     mask = os.umask(0o022)
     os.umask(mask)
+    import warnings
     return [sys.getrecursionlimit(), repr(sys.getswitchinterval()), os.getcwd(), mask,
-            repr(locale.getlocale()), sys.getdefaultencoding(), sys.getfilesystemencoding()]
+            repr(locale.getlocale()), sys.getdefaultencoding(), sys.getfilesystemencoding(),
+            # the warning filters decide whether a user class that warns raises instead
+            repr([(f[0], getattr(f[2], '__name__', f[2]), f[4]) for f in warnings.filters])]
 
 
 _ABCS = None
@@ -355,6 +359,7 @@ def shared_state_fn(env):
         out.append([len(d) for d in mod_dicts])
         out.append(sys.getrecursionlimit())
         out.append(simio.FS_EPOCH[0])
+        out.append((id(warnings.filters), len(warnings.filters)))
         out.append([list(h.values()) if isinstance(h, dict) else (list(h) if isinstance(h, list) else len(h))
                     for h in hidden])
         return out
